@@ -175,6 +175,10 @@ func (s *socket) onOpen() {
 	)
 
 	if i := s.server.Opts().InitialPacket(); i != nil {
+		// the configured reader can be consumed only once: ask the server for a per-session copy
+		if perSession, ok := s.server.(interface{ initialPacket() io.Reader }); ok {
+			i = perSession.initialPacket()
+		}
 		s.sendPacket(packet.MESSAGE, i, nil, nil)
 	}
 
